@@ -245,6 +245,7 @@ def summarize(prop, tier, seed, meta, results, wall, quiet=False, census=True):
             'obligations_note': "'obligations' excludes the obligations listed under known_finding_obligations (open, recorded defects of /repo reported as KNOWN-FINDING)",
             'out_of_reach_clauses': meta.get('out_of_reach', []),
             'obligation_names': sorted(set(all_names)),
+            'lemma_library': (open(os.path.join(VERIF, 'lean', 'STATUS')).read().strip() if os.path.exists(os.path.join(VERIF, 'lean', 'STATUS')) else 'not-checked (setup.sh not run)'),
             'undecided': undecided, 'broken': broken,
             'extraction_drops': "nothing is extracted: the function objects imported from %s are executed; dropped by the "
                                 "symbolic run: dtype width (float64->R, int64->Z), warnings/print output except recorded events, "
